@@ -921,7 +921,8 @@ func c12Where(r *hx.Result, cfg hx.Config, rng *rand.Rand, drv *model.Driver) {
 					return n, ids
 				}
 				mcount, mids := ask(false)
-				if strings.Join(asc, " ") != strings.Join(mids, " ") {
+				corrOK := strings.Join(asc, " ") == strings.Join(mids, " ")
+				if !corrOK {
 					r.Fail(hx.Failure{Kind: "correspondence", Signature: "where-model",
 						What: fmt.Sprintf("SCAN k %s IDS differs from Model.Where.scan_ids", show), Case: cs,
 						Impl: strings.Join(asc, " "), Model: strings.Join(mids, " ")})
@@ -989,7 +990,7 @@ func c12Where(r *hx.Result, cfg hx.Config, rng *rand.Rand, drv *model.Driver) {
 				if cv := cmd([]string{"SCAN", "k"}, "COUNT"); cv.Kind != ':' || int(cv.Int) != len(asc) {
 					r.Fail(hx.Failure{Kind: "oracle", Signature: "where-count",
 						What: fmt.Sprintf("SCAN k %s COUNT = %s but IDS returns %d ids", show, cv.String(), len(asc)), Case: cs})
-				} else if mcount != len(mids) || int(cv.Int) != mcount {
+				} else if corrOK && (mcount != len(mids) || int(cv.Int) != mcount) { // (one report per query is enough)
 					r.Fail(hx.Failure{Kind: "correspondence", Signature: "where-model-count",
 						What: fmt.Sprintf("SCAN k %s COUNT differs from Model.Where.scan_count", show), Case: cs, Impl: cv.String(), Model: mcount})
 				}
@@ -998,7 +999,7 @@ func c12Where(r *hx.Result, cfg hx.Config, rng *rand.Rand, drv *model.Driver) {
 				if !ok || strings.Join(desc, " ") != strings.Join(reverseStrings(asc), " ") {
 					r.Fail(hx.Failure{Kind: "oracle", Signature: "where-desc",
 						What: fmt.Sprintf("SCAN k %s DESC IDS returned %v, ASC returned %v: not the reverse", show, desc, asc), Case: cs})
-				} else if _, mdesc := ask(true); strings.Join(desc, " ") != strings.Join(mdesc, " ") {
+				} else if _, mdesc := ask(true); corrOK && strings.Join(desc, " ") != strings.Join(mdesc, " ") {
 					r.Fail(hx.Failure{Kind: "correspondence", Signature: "where-model-desc",
 						What: fmt.Sprintf("SCAN k %s DESC IDS differs from Model.Where.scan_ids", show), Case: cs,
 						Impl: strings.Join(desc, " "), Model: strings.Join(mdesc, " ")})
